@@ -26,9 +26,13 @@ import (
 )
 
 type batch struct {
-	txn  *txnkv.KVTxn
-	list []func(ctx context.Context) error
+	txn   *txnkv.KVTxn
+	begin func() (*txnkv.KVTxn, error)
+	list  []func(ctx context.Context) error
 }
+
+// maxConflictRetry bounds the re-runs of a batch that met a write conflict
+const maxConflictRetry = 8
 
 func (b *batch) PutIfNotExist(key []byte, val []byte, ttl int64) {
 	idx := len(b.list)
@@ -108,6 +112,23 @@ func (b *batch) DelCurrent(it storage.Iter) {
 }
 
 func (b *batch) Commit(ctx context.Context) (err error) {
+	for attempt := 0; ; attempt++ {
+		err = b.commitOnce(ctx)
+		if err != storage.ErrCASFailed || attempt >= maxConflictRetry || b.begin == nil {
+			return err
+		}
+		// a write conflict only says that some record of a key of this batch (possibly the rollback record of
+		// an abandoned transaction) is newer than this transaction's snapshot; whether the conditions of the
+		// batch hold is decided by evaluating them again on a fresh snapshot
+		txn, beginErr := b.begin()
+		if beginErr != nil {
+			return err
+		}
+		b.txn = txn
+	}
+}
+
+func (b *batch) commitOnce(ctx context.Context) (err error) {
 	defer func() {
 		// b.txn is nil when the transaction could not even be started (BeginBatchWrite keeps that
 		// error for Commit to return): there is nothing to roll back then
